@@ -207,6 +207,8 @@ def run_cases(c, cs, variant="asan", tag="c04", prop_what="output differs from t
         if san:
             c.violation(k + ":crash", "driver died / sanitizer report: %s" % san, {"case": case})
             continue
+        if any(e.get("unset") for e in evs):
+            c.violation(k + ":outlen-unset", "an update call returned 1 without reporting how many bytes it wrote (*outlen keeps the caller's old value)", {"case": case, "events": [{kk: vv for kk, vv in e.items() if kk != "T"} for e in evs][:12]})
         execs.append((k, case, CL.annotate(evs)))
     rej, states = vlib.validate("CryptoTrace", [e[2] for e in execs], tag=tag, timeout=1500, max_reject=12)
     c.cov["traces_validated_against_impl"] += len(execs)
